@@ -477,7 +477,7 @@ func (m *M) builtin(b *ssa.Builtin, args []Value, retTo ssa.Value) Value {
 		if d.Closed {
 			panic(execPanic{msg: "close of closed channel"})
 		}
-		st.setObj(c.Obj, &ChanData{Buf: d.Buf, Cap: d.Cap, Closed: true})
+		st.setObj(c.Obj, &ChanData{Buf: d.Buf, Cap: d.Cap, Closed: true, Timer: d.Timer})
 		return nil
 	case "min", "max":
 		r := args[0].(*smt.Term)
@@ -576,6 +576,8 @@ func init() {
 		"vobserve":         primObserve,
 		"vauxMap":          primAuxMap,
 		"vauxCell":         primAuxCell,
+		"vpump":            primPump,
+		"vparked":          primParked,
 		"vgetPriv":         primGetPriv,
 		"vsetPriv":         primSetPriv,
 		"vsymbolic":        func(m *M, fn *ssa.Function, a []Value) Value { return smt.True },
